@@ -10,7 +10,7 @@ from harness.common import splines as S, leandriver, bits
 
 PROPERTY = 'C09'
 LEVEL = 'proof'
-REQUIRED_THEOREMS = ['Properties.C09.knots_valid', 'Properties.C09.binSearch_spec', 'Properties.C09.spline_strictMonoOn',
+REQUIRED_THEOREMS = ['Properties.C09.exec_knots_valid', 'Properties.C09.knots_valid', 'Properties.C09.binSearch_spec', 'Properties.C09.spline_strictMonoOn',
                      'Properties.C09.spline_maps_endpoints', 'Properties.C09.spline_mapsTo_box',
                      'Properties.C09.rq_executed_strictMonoOn', 'Properties.C09.tails_identity']
 RULE = ("cases = (family, tails, K, parameter regime, box/tail bound, atom kind) with per-element parameter rows; "
